@@ -1,10 +1,17 @@
+pub mod c01;
+pub mod c02;
 pub mod c03;
+pub mod common;
+pub mod c04;
 
 use crate::report::{Cfg, Report};
 
 pub fn run(cfg: &Cfg, rep: &mut Report) -> bool {
   match cfg.prop.as_str() {
+    "C01" => c01::run(cfg, rep),
+    "C02" => c02::run(cfg, rep),
     "C03" => c03::run(cfg, rep),
+    "C04" => c04::run(cfg, rep),
     _ => return false,
   }
   true
